@@ -410,13 +410,14 @@ struct E1 : Engine {
 		static const int bufs[] = {1,7,64,1024,16384,65536};
 		J cfg = J::obj(); cfg["reactor"] = (int)r.below(3); cfg["worker_threads"] = 1 + (int)r.below(3);
 		cfg["output_buffer_size"] = bufs[r.below(6)]; cfg["async_output_buffer_size"] = bufs[r.below(6)]; cfg["input_buffer_size"] = bufs[r.below(6)];
-		cfg["syslog"] = r.below(6) == 0 ? 1 + (int)r.below(2) : 0; cfg["proxy_behind"] = (int)(r.below(4) == 0); cfg["mount_style"] = r.below(2) ? 0 : (int)r.below(4); if((prop == "C02" || prop == "C12") && r.below(8) == 0){ static const int hk[] = {2097152,4194304,5242880}; cfg["huge_limits_kb"] = hk[r.below(3)]; }   /* limits of 2 GiB and more (given in KB): a site that takes very large uploads */
+		cfg["syslog"] = r.below(6) == 0 ? 1 + (int)r.below(2) : 0; cfg["proxy_behind"] = (int)(r.below(4) == 0); cfg["mount_style"] = r.below(2) ? 0 : (int)r.below(4); if(prop == "C03") cfg["grouping_locale"] = (int)(r.below(5) == 0); if((prop == "C02" || prop == "C12") && r.below(8) == 0){ static const int hk[] = {2097152,4194304,5242880}; cfg["huge_limits_kb"] = hk[r.below(3)]; }   /* limits of 2 GiB and more (given in KB): a site that takes very large uploads */
 		cfg["gzip"] = (int)r.below(2); cfg["gzip_level"] = (int)r.below(10) - 1; cfg["gzip_buffer"] = r.below(2) ? 0 : bufs[1 + r.below(5)];
 		cfg["http_timeout"] = 10 + (int)r.below(20); gen_limit() = 0; if(prop == "C12" && r.below(2)){ static const int lk[] = {1,4,16,64,2048}; cfg["content_limit_kb"] = lk[r.below(5)]; cfg["multipart_limit_kb"] = std::max<int>(lk[r.below(5)],(int)cfg.geti("content_limit_kb")*2); gen_limit() = (size_t)cfg.geti("content_limit_kb") * 1024; } { static const int fm[] = {0,1,100,4096,131072}; cfg["file_in_memory_limit"] = fm[r.below(5)]; }
 		p["cfg"] = cfg;
 		bool faults = r.below(3) == 0;
 		if(prop == "C12" && r.below(4) == 0){ J fa = J::arr(); int nf = 1 + (int)r.below(3); for(int i=0;i<nf;i++) fa.push((int)r.below(r.below(2) ? 6 : 60)); p["disk_fail_at"] = fa; p["disk_sticky"] = (int)r.below(2); }   // disk full / I/O error while an upload spills to its temporary file
 		p["p_short_read"] = r.below(2) ? (int)r.below(500) : 0; p["p_short_write"] = r.below(2) ? (int)r.below(500) : 0; p["p_eintr"] = faults ? (int)r.below(40) : 0; p["p_spurious"] = faults ? (int)r.below(80) : 0;
+		if(prop == "C01" && r.below(4) == 0){ J cs = J::obj(); cs["at_ms"] = (int)(r.below(2) ? r.below(200) : r.below(20000)); cs["back_s"] = 2 + (int)r.below(9); cs["in_pause"] = (int)r.below(2); p["clock_step"] = cs; }
 		if(r.below(6) == 0){ J af = J::arr(); int n = 1 + (int)r.below(3); for(int k=0;k<n;k++) af.push((int)r.below(8)); p["accept_fail_at"] = af; }   /* descriptor exhaustion: these accept() calls fail with EMFILE although a connection is pending; the service must go on accepting afterwards */
 		int nconn = 1 + r.below(prop == "C03" ? 3 : 5);
 		// a slow reader is alone in its plan: wherever a write blocks (a synchronous application on a worker thread, an asynchronous one that chose a blocking io mode) it
@@ -448,7 +449,8 @@ struct E1 : Engine {
 					{ // tiny buffers / channels make every byte a scheduling step: keep such runs small
 						int ob = (int)cfg.geti("output_buffer_size"), ab = (int)cfg.geti("async_output_buffer_size"), cc = (int)c.geti("cap_to_client"); int narrow = std::min(std::min(ob,ab),cc); size_t cap_total = narrow <= 8 ? 3000 : narrow <= 64 ? 20000 : 400000;
 						if(total > cap_total){ std::string sc2; size_t run = 0; size_t p0 = 0; while(p0 < sc.size()){ size_t q0 = sc.find('.',p0); if(q0 == std::string::npos) q0 = sc.size(); std::string t = sc.substr(p0,q0-p0); p0 = q0 + 1; if(!t.empty() && t[0] == 'w'){ size_t n0 = strtoul(t.c_str()+1,nullptr,10); if(run + n0 > cap_total) n0 = run < cap_total ? std::min<size_t>(cap_total-run,n0) % 97 : 3; run += n0; t = "w" + std::to_string(n0); } sc2 += t + "."; } sc = sc2; } }
-					e["kind"] = "writer"; e["script"] = sc; e["salt"] = (long long)r.below(100000); e["gzip"] = (int)(r.below(3) == 0); if(rawmode) e["gzip"] = 0; if(r.below(10) == 0) e["abort_after"] = (int)r.below(3000); if(!rawmode && r.below(8) == 0){ e["cache"] = "pg" + std::to_string(r.below(2)); std::string sc3; size_t p0 = 0; while(p0 < sc.size()){ size_t q0 = sc.find('.',p0); if(q0 == std::string::npos) q0 = sc.size(); std::string t = sc.substr(p0,q0-p0); p0 = q0 + 1; if(!t.empty() && t[0] != 't' && t[0] != 'm') sc3 += t + "."; } e["script"] = sc3; }
+					bool has_l = false; if(!rawmode && r.below(6) == 0){ size_t tot = script_body(normalise_script(sc),0).size(); sc = "l" + std::to_string(tot) + "." + sc; has_l = true; }   /* the application announces the length itself (response::content_length) */
+					e["kind"] = "writer"; e["script"] = sc; e["salt"] = (long long)r.below(100000); e["gzip"] = (int)(r.below(3) == 0); if(rawmode || has_l) e["gzip"] = 0;   /* an announced length is the length of what the application writes: no content coding on top of it */ if(r.below(10) == 0) e["abort_after"] = (int)r.below(3000); if(!rawmode && r.below(8) == 0){ e["cache"] = "pg" + std::to_string(r.below(2)); std::string sc3; size_t p0 = 0; while(p0 < sc.size()){ size_t q0 = sc.find('.',p0); if(q0 == std::string::npos) q0 = sc.size(); std::string t = sc.substr(p0,q0-p0); p0 = q0 + 1; if(!t.empty() && t[0] != 't' && t[0] != 'm') sc3 += t + "."; } e["script"] = sc3; }
 				} else { e["kind"] = "echo"; e["req"] = gen_req(r,prop,thorough,async_mount,i); if(i == nreq-1 && !bad_conn && !fwd_plan && (prop == "C01" || prop == "C02") && e.get("req").gets("script") != "/f" && r.below(12) == 0){ e["req"]["path"] = "/throw"; } if(i != nreq-1 && e.get("req").gets("host") == "fwd.example") e["req"]["host"] = "sim.example"; }   /* the relay closes the front connection when it is done: a forwarded request is the last one of its connection */
 				J fl = J::obj(); J pc = J::arr(); int npc = r.below(5); for(int k=0;k<npc;k++) pc.push((int)(1 + r.below(r.below(2) ? 8 : 400))); fl["params_chunks"] = pc; J sc2 = J::arr(); int nsc = r.below(5); for(int k=0;k<nsc;k++) sc2.push((int)(1 + r.below(r.below(2) ? 16 : 70000))); fl["stdin_chunks"] = sc2;
 				J pd = J::arr(); int npd = r.below(6); for(int k=0;k<npd;k++) pd.push((int)r.below(r.below(2) ? 8 : 256)); fl["paddings"] = pd; fl["request_id"] = 1 + (int)r.below(r.below(2) ? 3 : 65535); e["fcgi"] = fl;
@@ -473,11 +475,11 @@ struct E1 : Engine {
 		J m = J::obj(); unsigned x = r.below(100);
 		static const char *generic[] = {"truncate","truncate","flip","insert","delete","garbage","dup_tail","mp_no_final_boundary","mp_bad_part_header","mp_no_name","mp_cut","fold_insert","fold_insert","odd_cookie","odd_cookie"};
 		static const char *http_m[] = {"cl_negative","cl_huge","cl_nonnumeric","cl_duplicate","cl_bigger","cl_smaller","header_16k","bare_lf","nul_in_header","no_version","bad_uri","no_colon","header_spaces","cl_over_limit","odd_target","odd_target"};
-		static const char *scgi_m[] = {"len_bigger","len_smaller","no_comma","no_final_nul","len_nondigit","len_huge","len_negative","cl_negative","cl_bigger","cl_smaller","odd_fields","cl_over_limit"};
-		static const char *fcgi_m[] = {"bad_version","unknown_type","bad_role","params_wrong_id","record_len_lie","pair_len_overflow","stdin_longer","stdin_shorter","get_values","get_values_then_request","abort_request","params_never_closed","stray_record_in_params","cl_negative","begin_short","stdin_before_params","cl_over_limit"};
+		static const char *scgi_m[] = {"len_bigger","len_smaller","no_comma","no_final_nul","len_nondigit","len_huge","len_negative","cl_negative","cl_bigger","cl_smaller","odd_fields","cl_over_limit","cl_huge","cl_nonnumeric"};
+		static const char *fcgi_m[] = {"bad_version","unknown_type","bad_role","params_wrong_id","record_len_lie","pair_len_overflow","stdin_longer","stdin_shorter","get_values","get_values_then_request","abort_request","stdin_cut","stdin_cut","cl_huge","cl_nonnumeric","params_never_closed","stray_record_in_params","cl_negative","begin_short","stdin_before_params","cl_over_limit"};
 		std::string op;
 		if(x < 45) op = generic[r.below(15)];
-		else if(proto == 0) op = http_m[r.below(16)]; else if(proto == 1) op = scgi_m[r.below(12)]; else op = fcgi_m[r.below(17)];
+		else if(proto == 0) op = http_m[r.below(16)]; else if(proto == 1) op = scgi_m[r.below(14)]; else op = fcgi_m[r.below(21)];
 		m["op"] = op; m["pos"] = (long long)r.below(1000000); m["n"] = (int)(1 + r.below(8)); m["byte"] = (int)r.below(256); m["len"] = (int)r.below(3000);
 		static const char *afters[] = {"close","halfclose","halfclose","wait","reset"}; m["after"] = afters[r.below(5)];
 		if(r.below(12) == 0){ m["op"] = "complete_then_reset"; m["after"] = "reset"; }   // a complete, valid request whose peer resets the connection right behind its last byte
@@ -516,6 +518,7 @@ struct E1 : Engine {
 			if(proto == 0) w = http_encode(q2,http11,e.keepalive); else w = reencode(cgi_env(q2,proto,http11),b,proto,e);
 			e.must_not_serve = true; }
 		else if(op == "cl_negative"){ if(proto == 0) w = find_replace_header(w,"Content-Length","Content-Length: -" + std::to_string(1 + (len % 5000)) + "\r\n"); else { Req q2 = q; q2.has_body = true; q2.body = "x"; Pairs v = cgi_env(q2,proto,http11); for(auto &kv:v) if(kv.first == "CONTENT_LENGTH") kv.second = "-" + std::to_string(1 + len); e.wire = reencode(v,"x",proto,e); } }
+		else if((op == "cl_huge" || op == "cl_nonnumeric") && proto != 0){ static const char *odd[] = {"18446744073709551616000","99999999999999999999","ten","-","12abc","0x10","+"}; Req q2 = q; q2.has_body = true; q2.body = "x"; Pairs v = cgi_env(q2,proto,http11); for(auto &kv:v) if(kv.first == "CONTENT_LENGTH") kv.second = op == "cl_huge" ? odd[len % 2] : odd[2 + len % 5]; e.wire = reencode(v,"x",proto,e); }   /* the gateway hands CONTENT_LENGTH on as text: whatever it is, nothing but this request may suffer */
 		else if(op == "cl_huge"){ w = find_replace_header(w,"Content-Length","Content-Length: 99999999999999999999\r\n"); }
 		else if(op == "cl_nonnumeric"){ w = find_replace_header(w,"Content-Length","Content-Length: 12abc\r\n"); }
 		else if(op == "cl_duplicate"){ size_t h = w.find("\r\n\r\n"); if(h != std::string::npos) w.insert(h+2,"Content-Length: " + std::to_string(len) + "\r\n"); }
@@ -568,6 +571,9 @@ struct E1 : Engine {
 			else if(op == "record_len_lie"){ begin(o); std::string pr = fcgi_pairs(v); fcgi_record(o,4,id,pr,0); size_t hp = 8 + 8 + 0; o[hp+4] = (char)0xff; o[hp+5] = (char)0xff; fcgi_record(o,4,id,"",0); stdin_(o,body); w = o; }
 			else if(op == "pair_len_overflow"){ begin(o); std::string pr; pr += (char)0xff; pr += (char)0xff; pr += (char)0xff; pr += (char)0xff; pr += (char)5; pr += "NAMEvalue"; pr += fcgi_pairs(v); fcgi_record(o,4,id,pr,0); fcgi_record(o,4,id,"",0); stdin_(o,body); w = o; }
 			else if(op == "stdin_longer"){ begin(o); params(o); stdin_(o,body + std::string(1 + len % 100,'L')); w = o; }
+			else if(op == "stdin_cut"){ /* the body arrives in several STDIN records and the stream ends (close, half-close, reset) after some of them: fewer bytes than CONTENT_LENGTH announced, no closing record */
+				Req q2 = q; if(!q2.has_body || q2.body.size() < 4){ q2.has_body = true; q2.body = gen_bytes(11,40 + len % 4000,1); q2.method = "POST"; q2.content_type = "application/octet-stream"; q2.parts.clear(); q2.boundary.clear(); } v = cgi_env(q2,2,http11); begin(o); params(o);
+				size_t rec = 1 + len % 97, upto = 1 + (len * 7) % (q2.body.size() - 1); for(size_t off=0;off<upto;off+=rec) fcgi_record(o,5,id,q2.body.substr(off,std::min(rec,upto - off)),(int)(off % 3)); w = o; e.must_not_serve = true; if(e.after == "wait") e.after = "halfclose"; }
 			else if(op == "stdin_shorter"){ Req q2 = q; if(!q2.has_body || q2.body.empty()){ q2.has_body = true; q2.body = "0123456789"; q2.method = "POST"; q2.content_type = "text/plain"; } v = cgi_env(q2,2,http11); begin(o); params(o); stdin_(o,q2.body.substr(0,q2.body.size()-1 - (len % q2.body.size()) % q2.body.size())); w = o; e.must_not_serve = true; }
 			else if(op == "get_values"){ Pairs gv; gv.push_back({"FCGI_MAX_CONNS",""}); gv.push_back({"FCGI_MPXS_CONNS",""}); fcgi_record(o,9,0,fcgi_pairs(gv),0); w = o; }
 			else if(op == "get_values_then_request"){ Pairs gv; gv.push_back({"FCGI_MAX_REQS",""}); fcgi_record(o,9,0,fcgi_pairs(gv),0); begin(o); params(o); stdin_(o,body); w = o; }
@@ -605,8 +611,12 @@ struct E1 : Engine {
 		return "got line: " + a.substr(ls,(ea == std::string::npos ? a.size() : ea) - ls).substr(0,300) + " | expected line: " + b.substr(ls < b.size() ? ls : b.size(),(eb == std::string::npos ? b.size() : eb) - std::min(ls,b.size())).substr(0,300); }
 
 	RunResult run(const J &plan) override {
-		RunResult res; AppWorld aw; AW = &aw;
+		RunResult res; AppWorld aw; AW = &aw; bool clock_was_stepped = false;
 		std::string prop = plan.gets("prop","C01");
+		/* C03 plans only (all their exchanges are writer scripts): the application has installed a process-wide locale that groups digits; the numbers cppcms puts on the wire (Content-Length, chunk sizes, Max-Age) must not change with it */
+		struct Grouping : std::numpunct<char> { char do_thousands_sep() const override { return ','; } std::string do_grouping() const override { return "\3"; } };
+		struct LocaleGuard { bool on; LocaleGuard(bool o) : on(o) { if(on) std::locale::global(std::locale(std::locale::classic(),new Grouping)); } ~LocaleGuard(){ if(on) std::locale::global(std::locale::classic()); } } locale_guard(prop == "C03" && plan.get("cfg").geti("grouping_locale") != 0);
+		if(locale_guard.on) res.counters["runs_under_digit_grouping_locale"] = 1;
 		simk::Params sp; sp.sched_seed = (uint64_t)plan.geti("sched_seed",1); sp.fault_seed = (uint64_t)plan.geti("fault_seed",1); sp.strategy = (int)(((plan.geti("strategy") % 3) + 3) % 3);
 		sp.pct_depth = (int)std::max<int64_t>(1,std::min<int64_t>(plan.geti("pct_depth",2),8)); sp.pct_len = (int)std::max<int64_t>(1,plan.geti("pct_len",500)); sp.tick_us = (int)std::max<int64_t>(1,std::min<int64_t>(plan.geti("tick_us",1),10000));
 		sp.p_short_read = (unsigned)std::max<int64_t>(0,std::min<int64_t>(plan.geti("p_short_read"),1000)); sp.p_short_write = (unsigned)std::max<int64_t>(0,std::min<int64_t>(plan.geti("p_short_write"),1000));
@@ -675,6 +685,14 @@ struct E1 : Engine {
 					for(auto &e:cl->ex) if(!e.well_formed && cl->proto != 0 && e.after == "wait") e.after = "halfclose";
 					if(cl->ex.empty()) continue;
 					simk::add_actor(cl.get()); clients.push_back(std::move(cl)); }
+				/* the wall clock is set back while requests are in flight (ntpd step, date -s, VM resume): time() and gettimeofday() of the service jump back by a few seconds once; a time-out may come later for it, never earlier */
+				struct ClockStepper : simk::Actor { int64_t at = -1, by = 0; bool fired = false; bool in_pause = false; std::vector<std::unique_ptr<Client>> *cls = nullptr;
+					bool paused_mid_request(){ if(!cls) return false; for(auto &c:*cls) if(c->connected && !c->finished && c->sent > 0 && c->hold_until > simk::now_us() + 1500000) return true; return false; }   /* a peer has sent a part of its request and will be silent for a while: the request is in flight */
+					bool enabled() override { if(fired || at < 0) return false; return in_pause ? (paused_mid_request() || (late && others_done())) : simk::now_us() >= at; } int64_t next_time() override { return fired || at < 0 || in_pause ? -1 : at; } Client *late = nullptr;   /* a peer that connects right after the step (the acceptor looks at the connection table whenever it accepts) */
+					bool others_done(){ if(!cls) return true; for(auto &c:*cls) if(c.get() != late && !c->finished) return false; return true; }
+					void release_late(){ if(late && !late->connected){ late->start_delay_us = simk::now_us() - late->t_created + 200000; } }
+					void step() override { fired = true; if(in_pause && !paused_mid_request()){ release_late(); return; }   /* nobody ever paused: no step, let the late peer in */ simk::set_node_skew_us(0,by); stepped = true; if(flag) *flag = true; release_late(); simk::tracef("fault: wall clock stepped by %lld us",(long long)by); } bool stepped = false; bool *flag = nullptr; const char *name() override { return "clock-stepper"; } } clock_stepper;
+				if(plan.get("clock_step").is_obj()){ clock_stepper.at = simk::now_us() + 1000 * std::max<int64_t>(0,std::min<int64_t>(plan.get("clock_step").geti("at_ms"),600000)); clock_stepper.by = -1000000 * std::max<int64_t>(1,std::min<int64_t>(plan.get("clock_step").geti("back_s"),30)); clock_stepper.in_pause = plan.get("clock_step").geti("in_pause") != 0; clock_stepper.cls = &clients; clock_stepper.flag = &clock_was_stepped; if(clock_stepper.in_pause && clients.size() >= 2){ clock_stepper.late = clients.back().get(); clock_stepper.late->start_delay_us = 7200LL*1000000; } simk::add_actor(&clock_stepper); res.counters["clock_steps_back"] = 1; }
 				cppcms::service *sv = srv.get(); std::vector<std::unique_ptr<Client>> *cls = &clients;
 				if(clients.empty()){ simk::clear_actors(); legacy_async_app = 0; srv.reset(); simk::end(); AW = nullptr; return res; }   // nothing to serve (only reachable by shrinking): shutdown() before run() has set up its notification socket is outside the properties
 				int64_t settle_us = (v.get<int>("http.timeout") + 4) * 1000000LL; int *leakp = &conn_leak;
@@ -716,7 +734,8 @@ struct E1 : Engine {
 						if(ent > 0){ res.fail("malformed-request-served",who + ": a request that cannot be served reached the application"); break; }
 						if(e.resp.complete && e.resp.framing_error.empty() && e.resp.status > 0 && e.resp.status < 400){ res.fail("malformed-request-served",who + ": answered with status " + std::to_string(e.resp.status)); break; }
 						n_bad_refused++; }
-					if(e.expect_413 && e.resp.complete && e.resp.framing_error.empty() && e.resp.status != 413 && e.resp.status != 0){ res.fail("wrong-error-status",who + ": declared length above the limit answered with " + std::to_string(e.resp.status) + " instead of 413"); break; }
+					bool hdr_abort = e.req.script == "/f" && e.req.path == "/aborthdr" && e.resp.status == 401;   /* the application refused the upload at the header stage, before any limit is looked at (it may still set the limits there): its code is the answer */
+					if(e.expect_413 && !hdr_abort && e.resp.complete && e.resp.framing_error.empty() && e.resp.status != 413 && e.resp.status != 0){ res.fail("wrong-error-status",who + ": declared length above the limit answered with " + std::to_string(e.resp.status) + " instead of 413"); break; }
 					continue; }
 				if(e.timed_out){ res.fail("request-not-answered",who + ": no complete response within " + std::to_string(cl->timeout_us/1000000) + " simulated seconds (sent " + std::to_string(cl->sent) + " of " + std::to_string(e.wire.size()) + " bytes, received " + std::to_string(cl->in.size() + e.raw.size()) + ")"); break; }
 				if(e.conn_closed_early && i > 0 && e.raw.empty() && conn_had_error) continue;   // after an error response the server closes the connection (any protocol)
@@ -808,7 +827,7 @@ struct E1 : Engine {
 			if(ab || dn != is){ res.fail("async-flush-handler-miscounted","request " + e.tag + ": the application called async_flush_output " + std::to_string(is) + " times; its handler ran " + std::to_string(dn) + " times with operation_completed and " + std::to_string(ab) + " times with operation_aborted although the peer read the whole response"); break; } }
 		res.counters["async_flush_output_calls"] = aw.async_flushes; res.counters["responses_continued_on_a_later_event"] = aw.deferred_continuations;
 		if(res.ok && !aw.exception.empty()) res.fail("exception-escaped",aw.exception);
-		res.counters["raw_mode_responses"] = n_raw; res.counters["client_aborts_mid_response"] = n_aborted; res.counters["filter_on_error_calls"] = n_on_error; res.counters["content_filter_requests"] = n_filtered; res.counters["filter_reads_parts"] = n_filter_reads; res.counters["requests_with_own_limits"] = n_xlimit; res.counters["forwarded_requests"] = n_forwarded; res.counters["remote_addr_from_proxy_header"] = n_proxy_addr; res.counters["handler_exceptions_answered_500"] = n_thrown; res.counters["uploads_refused_by_abort_upload"] = n_abort_answers; res.counters["runs_with_limits_of_2g_and_more"] = huge_kb ? 1 : 0; res.counters["host_mounted_app_requests"] = n_host_app; res.counters["accept_emfile"] = (long long)simk::stats().accept_emfile; res.counters["filters_installed"] = aw.filters_installed; res.counters["over_limit_413"] = n_over_limit; res.counters["gzip_announced_empty_body"] = n_gzip_empty; res.counters["malformed_exchanges"] = n_bad; res.counters["malformed_refused_as_required"] = n_bad_refused; res.counters["page_cache_hits"] = n_cache_hits; res.counters["exchanges"] = n_ex; res.counters["multi_segment_requests"] = n_multi_seg; res.counters["requests_with_body"] = n_body; res.counters["keepalive_followups"] = n_keepalive_followups; res.counters["writer_responses"] = n_writer; res.counters["gzip_responses"] = n_gzip; res.counters["chunked_responses"] = n_chunked;
+		res.counters["raw_mode_responses"] = n_raw; res.counters["client_aborts_mid_response"] = n_aborted; res.counters["filter_on_error_calls"] = n_on_error; res.counters["content_filter_requests"] = n_filtered; res.counters["filter_reads_parts"] = n_filter_reads; res.counters["requests_with_own_limits"] = n_xlimit; res.counters["forwarded_requests"] = n_forwarded; res.counters["remote_addr_from_proxy_header"] = n_proxy_addr; res.counters["clock_stepped_back_mid_request"] = clock_was_stepped ? 1 : 0; res.counters["handler_exceptions_answered_500"] = n_thrown; res.counters["uploads_refused_by_abort_upload"] = n_abort_answers; res.counters["runs_with_limits_of_2g_and_more"] = huge_kb ? 1 : 0; res.counters["host_mounted_app_requests"] = n_host_app; res.counters["accept_emfile"] = (long long)simk::stats().accept_emfile; res.counters["filters_installed"] = aw.filters_installed; res.counters["over_limit_413"] = n_over_limit; res.counters["gzip_announced_empty_body"] = n_gzip_empty; res.counters["malformed_exchanges"] = n_bad; res.counters["malformed_refused_as_required"] = n_bad_refused; res.counters["page_cache_hits"] = n_cache_hits; res.counters["exchanges"] = n_ex; res.counters["multi_segment_requests"] = n_multi_seg; res.counters["requests_with_body"] = n_body; res.counters["keepalive_followups"] = n_keepalive_followups; res.counters["writer_responses"] = n_writer; res.counters["gzip_responses"] = n_gzip; res.counters["chunked_responses"] = n_chunked;
 		{ long long np = 0, nr = 0; for(auto &cl:clients){ np += cl->n_pauses; nr += cl->n_read_pauses; } res.counters["slow_peer_pauses"] = np; res.counters["slow_reader_pauses"] = nr; }
 		res.counters["pipelined_requests"] = n_pipelined;
 		res.counters["disk_faults_injected"] = (long long)st.stdio_fail; res.counters["upload_spill_stdio_calls"] = (long long)st.stdio_ops; res.counters["uploads_refused_after_disk_fault"] = n_disk_refused;
